@@ -18,25 +18,30 @@ func init() {
 		ID:        "C06",
 		Level:     "model_checking",
 		Technique: "exhaustive enumeration of client message histories up to a depth bound over a 33-letter alphabet, replayed on a real server; every per-message reply and callback compared with a set-valued reference model of the extended protocol",
-		Rule:      "all histories of length <= d over the alphabet (statements \"\"/\"s\"/unknown \"u\", portals \"\"/\"p\"/\"u\"; parsers and handlers that succeed or fail); replies attributed per message by transport quiescence; distinct = distinct histories",
+		Rule:      "all histories of length <= d over the alphabet (statements \"\"/\"s\"/unknown \"u\", portals \"\"/\"p\"/\"u\"; parsers and handlers that succeed or fail); replies attributed per message by transport quiescence; pending-input family: the same with every message delivered together with the first bytes of the following one (the reply is due before the rest arrives); distinct = distinct histories",
 		Assumptions: []string{
 			"not asserted (model forks): SQLSTATE/text of errors; reaction to oversized and unknown-type messages (error, optional ReadyForQuery, skipping or not); the fate of portals bound to a statement that is closed afterwards; whether portals / the unnamed statement survive a Sync or simple Query",
 			"two-connection family: each connection is judged by its own model instance, so the skip-until-Sync state must be per connection",
 		},
 		Enumerate:        c06Enumerate,
 		Bounds:           func(tier string) map[string]any { return c06Bounds(tier) },
-		RequiredOutcomes: []string{"no-error", "error-then-skip", "error-then-sync", "two-connections"},
+		RequiredOutcomes: []string{"no-error", "error-then-skip", "error-then-sync", "two-connections", "pending-input"},
 	})
 }
 
 func c06Bounds(tier string) map[string]any {
 	if tier == "thorough" {
-		return map[string]any{"full_alphabet_depth": 5, "core16_depth": 6, "errcore8_depth": 8}
+		return map[string]any{"full_alphabet_depth": 5, "core16_depth": 6, "errcore8_depth": 8, "pending_input": "core16 depth 4 x leads {1,4,5,all but the last byte}"}
 	}
-	return map[string]any{"full_alphabet_depth": 3, "core16_depth": 5, "errcore8_depth": 6}
+	return map[string]any{"full_alphabet_depth": 3, "core16_depth": 5, "errcore8_depth": 6, "pending_input": "core16 depth 3 x leads {1,5}"}
 }
 
-func c06Run(hist []xletter) explore.Result {
+func c06Run(hist []xletter) explore.Result { return c06RunLead(hist, 0) }
+
+// c06RunLead: every message is delivered together with the first lead bytes of the NEXT one (lead < 0: all but
+// its last |lead| bytes) — the way a pipelining client's stream is cut by the transport. The reply to a message
+// is due as soon as the message is complete: it must not wait for the rest of the following message.
+func c06RunLead(hist []xletter, lead int) explore.Result {
 	var res explore.Result
 	rec := &script.Rec{}
 	one, err := harness.StartOne(rec.ParseFn())
@@ -61,7 +66,22 @@ func c06Run(hist []xletter) explore.Result {
 				wasSkipping = true
 			}
 		}
-		out, st := one.Step(l.Bytes)
+		deliver := l.Bytes
+		if lead != 0 {
+			next := pgproto.Sync()
+			if i+1 < len(hist) {
+				next = hist[i+1].Bytes
+			}
+			cut := func(b []byte) int {
+				k := lead
+				if k < 0 {
+					k = len(b) + lead
+				}
+				return max(0, min(k, len(b)-1))
+			}
+			deliver = pgproto.Cat(l.Bytes[cut(l.Bytes)*min(i, 1):], next[:cut(next)])
+		}
+		out, st := one.Step(deliver)
 		ms, perr := pgproto.ParseBackend(out)
 		if perr != nil {
 			res.Fail("reply-grammar", fmt.Sprintf("step %d %s: %v", i, l.Name, perr))
@@ -84,7 +104,12 @@ func c06Run(hist []xletter) explore.Result {
 			case reply == "" && !wasSkipping && l.Kind != "flush":
 				clause = "silence"
 			}
-			res.Fail(clause, fmt.Sprintf("step %d %s: reply %q callbacks %v\nmodel states before: %v\nallowed:\n%s", i, l.Name, reply, cbs, set.keys(), allowed))
+			detail := fmt.Sprintf("step %d %s: reply %q callbacks %v\nmodel states before: %v\nallowed:\n%s", i, l.Name, reply, cbs, set.keys(), allowed)
+			if lead != 0 {
+				clause = "reply-waits-for-further-input"
+				detail = fmt.Sprintf("each message delivered together with the first bytes (lead %d) of the following one; the server is waiting for the rest of that message and so far ", lead) + detail
+			}
+			res.Fail(clause, detail)
 			return res
 		}
 		if strings.Contains(reply, "E") {
@@ -114,6 +139,10 @@ func c06Run(hist []xletter) explore.Result {
 		names = append(names, l.Name)
 	}
 	res.Key = strings.Join(names, " ")
+	if lead != 0 {
+		res.Key += fmt.Sprint(" lead", lead)
+		res.Outcome = "pending-input"
+	}
 	return res
 }
 
@@ -151,6 +180,30 @@ func c06Enumerate(tier string, emit explore.Emit) {
 	// names that are closed and used again (12 letters, not a subset of the families above beyond depth fd)
 	closeCore := xCloseCore
 	add(closeCore, cd, "close-core13", fd)
+	// pending input: each message arrives together with the head of the next one
+	leads := []int{1, 5}
+	ld := 3
+	if tier == "thorough" {
+		leads = []int{1, 4, 5, -1}
+		ld = 4
+	}
+	for _, lead := range leads {
+		lead := lead
+		forShapes(len(core), ld, func(sh []int) {
+			if len(sh) == 0 {
+				return
+			}
+			hist := make([]xletter, len(sh))
+			for i, s := range sh {
+				hist[i] = core[s]
+			}
+			emit(explore.Case{Family: "pending-input", Size: 30 + len(hist),
+				Desc: func() any {
+					return map[string]any{"history": histNames(hist), "bytes_of_next_message_delivered_with_each": lead}
+				},
+				Run: func() explore.Result { return c06RunLead(hist, lead) }})
+		})
+	}
 	// two connections on one server, message granularity: the error / skipping state of one
 	// connection must not influence the other (each is judged by its own model instance)
 	two := []xletter{errcore[0], errcore[1], errcore[2], errcore[4], errcore[7], xletterByName(full, "Query(ok)")} // Parse ok, Parse #perr, Bind, Execute, Sync, Query(ok)
